@@ -70,7 +70,7 @@ func (c *Cache) Commit() (err error) {
 	c.changes.removeMU.RLock()
 	defer c.changes.removeMU.RUnlock()
 	for src = range c.changes.remove {
-		if c.remoteFS.IsFile(src) {
+		if c.remoteFS.IsExist(src) {
 			if err = c.remoteFS.Remove(src); err != nil {
 				return err
 			}
